@@ -12,6 +12,7 @@ EXPLANATION = (
     "indexes hold the same key set. R10-capacity: a net-growing path exists only under `obj2count.len() < k`, and with room a new key "
     "is always inserted. R10-order: TreeEntry::cmp is lexicographic on (n, obj); the displaced entry is tree.iter().next() (the "
     "minimum) under the guard estimate > min.n. R10-sketch-always-fed: cms.add(&item) is executed on every path before anything else."
+    " The known-key arm increments the exact counter by exactly one and re-keys the tree entry from n-1 to n. Because displacement decisions use the sketch's return value, C02's rules are run as well."
 )
 NOT_DECIDED = "the ranking-quality clause (an element is missing only if k others are within the sketch error E)"
 ASSUMPTIONS = ["BTreeSet::iter().next() yields the minimum under Ord", "HashMap/BTreeSet insert/remove act on exactly the given key"]
